@@ -37,10 +37,30 @@ func VfC07_ParseGEP() {
 		pre = "%ST = type " + T + "\n%BP = type %ST addrspace(" + ad + ")*\n%IV = type " + ivec + "\n"
 		T, ptr, ivec = "%ST", "%BP", "%IV"
 	}
-	form := vfChoice("form", 9)
+	form := vfChoice("form", 15)
 	var idx string
 	vecIdx := false
+	if form >= 9 {
+		// constant vectors with explicit elements: fixed length, two elements
+		if scal {
+			vfCut("constant vectors with explicit elements are fixed-length")
+		}
+		vfAssume(nd == "2")
+		vecIdx = true
+	}
 	switch form {
+	case 9:
+		idx = "<2 x i64> <i64 1, i64 1>"
+	case 10:
+		idx = "<2 x i64> <i64 1, i64 2>"
+	case 11:
+		idx = "<2 x i64> <i64 0, i64 undef>"
+	case 12:
+		idx = "<2 x i64> <i64 0, i64 poison>"
+	case 13:
+		idx = "<2 x i64> <i64 1, i64 ptrtoint (i8* null to i64)>"
+	case 14:
+		idx = "<2 x i1> <i1 true, i1 false>"
 	case 0:
 		idx = "i64 1"
 	case 1:
